@@ -340,18 +340,26 @@ SW_INV = ["TypeOK", "ResultEqualsStreams", "NextTsAboveAll", "NothingLostInFligh
           "WritesToFreeLevel", "DroppedInvisible"]
 
 
-def sw_consts(nstreams, keys_per_stream, vers, maxlen, maxbatch, cap, modes, sessions, commits, levels):
+def sw_consts(nstreams, keys_per_stream, vers, maxlen, maxbatch, cap, modes, sessions, commits, levels, levelfix=True):
     nk = nstreams * keys_per_stream
     return {"Streams": set(range(1, nstreams + 1)), "Keys": set(range(1, nk + 1)),
             "Owner": [(k - 1) // keys_per_stream + 1 for k in range(1, nk + 1)], "Vers": set(vers),
             "MaxLen": maxlen, "MaxBatch": maxbatch, "Cap": cap, "Modes": set(modes), "MaxSessions": sessions,
-            "MaxCommits": commits, "MaxLevels": levels}
+            "MaxCommits": commits, "MaxLevels": levels, "LevelFix": levelfix}
 
 
-def mc_sw(c, name, consts, timeout=600, workers=None, coverage=False):
+def mc_sw(c, name, consts, timeout=600, workers=None, coverage=False, expect_violation=False):
     d = vlib.stage_specs(["sm2"])
-    write_mc(d, "SWMC", "StreamWriter", consts, "Spec", SW_INV)
+    write_mc(d, "SWMC", "StreamWriter", consts, "Spec", ["WritesToFreeLevel"] if expect_violation else SW_INV)
     res = vlib.run_tlc(d, "SWMC", "SWMC.cfg", timeout=timeout, workers=workers, coverage=coverage)
+    if expect_violation:
+        # model of the code as it is (LevelFix=FALSE): informational, the replay decides
+        c.cov["tlc_runs"].append({"config": name, "model": "code as it is (LevelFix=FALSE)", "violated": res.violation,
+                                  "distinct_states": res.distinct, "states_generated": res.generated,
+                                  "wall_s": round(res.wall, 1)})
+        if res.timeout or (not res.violation and not res.ok):
+            raise Inconclusive("TLC failed on %s: %s" % (name, res.error_trace[:1500]))
+        return res
     if coverage:
         res.coverage_zero = final_zero_actions(res)
     c.add_tlc(name, res)
